@@ -15,9 +15,20 @@ import (
 // ---------- C13: Generate refuses exactly the dishonourable recipes, by error ----------
 
 // policyTape answers every announced draw through f(bound, drawIndex).
+// policyWordCap bounds the words a policy tape serves: code that keeps
+// drawing for ever (a retry loop that never gives up) is cut off by a panic
+// from the tape (tape.Abort) instead of hanging the check.
+const policyWordCap = 400000
+
 func policyTape(f func(bound uint32, i int) uint32) *tape.Tape {
 	i := 0
-	return tape.New(tape.Func(func(bound uint32, announced, cont bool) (uint32, error) {
+	var t *tape.Tape
+	served := 0
+	t = tape.New(tape.Func(func(bound uint32, announced, cont bool) (uint32, error) {
+		served++
+		if served > policyWordCap {
+			t.AbortNow()
+		}
 		if !announced || bound == 0 {
 			return 0, nil
 		}
@@ -26,6 +37,7 @@ func policyTape(f func(bound uint32, i int) uint32) *tape.Tape {
 		w, _ := cal.Rep(bound, o)
 		return w, nil
 	}))
+	return t
 }
 
 // pow computes x^n in 300-bit floats.
@@ -293,6 +305,8 @@ func c13AllFail(c *core.Ctx, r ref.CharRecipe, trials int, rate float64) {
 		return
 	}
 	switch {
+	case out.Aborted:
+		c.Violation(key+" budget", fmt.Sprintf("Generate kept drawing (more than %d characters) on a stream where every attempt fails: the attempt budget MaxTrials(%d) is not enforced", policyWordCap, trials), rp)
 	case out.Panic != "":
 		c.Violation(key+" panic", "Generate panicked when every attempt failed: "+out.Panic, rp)
 	case out.HasPw:
@@ -377,6 +391,9 @@ func c13Degenerate(c *core.Ctx) {
 }
 
 func c13Run(c *core.Ctx) {
+	if !charPairs(c) {
+		return
+	}
 	c13Degenerate(c)
 	// (a) the overlap universe of C07(a)
 	u := []string{"a", "b", "c", "d"}
